@@ -1522,5 +1522,5 @@ func TestVerifC20(t *testing.T) {
 	}
 	sink.extraFile("keys", c20KeyTable(newVrng(env.seed, 777777), 150))
 	sink.stats.Extra = map[string]float64{"harness_seconds": time.Since(t0).Seconds()}
-	sink.close("real asyncEventsNats over the real LoopbackNatsClient: seeded sequential scripts (publish/register/unregister on the four subject kinds, overlapping subjects, blocking callbacks, 64-slot overflow) run to quiescence after each call and replayed on the model; concurrent runs (publishers and registering/unregistering listeners) judged by P_C20; non-trivial = at least 3 callbacks; distinct = distinct event sequences")
+	sink.close("real asyncEventsNats over the real LoopbackNatsClient: seeded sequential scripts (publish/register/unregister on the four subject kinds, overlapping subjects, blocking callbacks, 64-slot overflow; collision pool: ids with their base64 / hex / separator / case / id|backend derivations as ids of their own, a listener per target and a publication per target, every ordered pair judged by P_C20 clause 3) run to quiescence after each call and replayed on the model; concurrent runs (publishers and registering/unregistering listeners) judged by P_C20; non-trivial = at least 3 callbacks; distinct = distinct event sequences")
 }
